@@ -147,6 +147,18 @@ CHECKS = {
         note="Trusted: TLC; CPython's ast positions as ground truth (exit 2 on disagreement with the spec).",
         design_ref="DESIGN.md sections 3.6, 5 (C13)",
     ),
+    "C14": dict(
+        category="model_checking",
+        technique="TLA+ model of substitution (Subst.tla): TLC enumerates cases and, per case, every admissible set of applied matches; replay into sub / subn / command line with a reference substitution on syntax trees; the model's precedence analysis separates the recorded textual-splice finding from new violations",
+        text=("Subst.tla: modules of 1..3 statements over 11 statement kinds (whole-statement, nested, operand, argument, attribute object, two on a "
+              "line, multi-line, indented, ignored, non-matching) x patterns (call, statement sequence, absent) x 7 replacement templates (wildcard "
+              "used 0/1/2 times, the pattern itself, operators) x bound values x counts. Admissible = eligible (not ignored), non-overlapping, within "
+              "the count, maximal when unlimited. Every case is replayed: the tree of the result must equal the reference ast substitution for one "
+              "admissible set, untouched lines must be verbatim, an absent pattern must return the source byte for byte, subn's number must respect "
+              "the count, sub = subn[0], and `pattern_matching replace` must leave the same file."),
+        note="Trusted: TLC; CPython's ast for the reference substitution. Which admissible set is applied is the implementation's choice.",
+        design_ref="DESIGN.md sections 3.6, 5 (C14)",
+    ),
     "C15": dict(
         category="model_checking",
         technique="TLA+ reference semantics of constant expressions (ConstEval.tla) enumerated by TLC, validated against CPython eval, replayed into core.literal_value; consumer programs traced through format_code",
